@@ -31,6 +31,23 @@ fn known_file_drive(u: &Url) -> bool {
         })
 }
 
+/// mirror of Known_F_C02_9 (coq/Proofs/C02_Hist.v): set_ip_host with an IPv4 address on a URL whose scheme is
+/// not special - the result has host() = Ipv4 while its text re-parses with host() = Domain (Host::parse_opaque
+/// has no IPv4 arm).  Used by the history search (known_step_c02) and by the known mode to check the witness.
+fn known_f_c02_9(before: &Url, ip: &std::net::IpAddr) -> bool {
+    ip.is_ipv4() && !before.is_special()
+}
+
+/// the steps on which the C02 history search does not evaluate the property (hist.rs, property_on_step):
+/// the class Known_F_C02_9, and every later step of such a history - a non-special URL whose host kind is Ipv4
+/// is reachable only through the class (the parser gives such a host the kind Domain), i.e. it is outside
+/// Reachable2 of coq/Proofs/C02_Hist.v
+fn known_step_c02(before: &Url, op: &verif_harness::urlops::Op) -> bool {
+    use verif_harness::urlops::Op;
+    let outside = !before.is_special() && matches!(before.host(), Some(url::Host::Ipv4(_)));
+    outside || matches!(op, Op::SetIpHost(ip) if known_f_c02_9(before, ip))
+}
+
 const SCHEMES2: [&str; 14] =
     ["http", "https", "ws", "wss", "ftp", "file", "a", "non-spec", "HTTP", "About", "data", "mailto", "web+demo", "FiLe"];
 const AUTH: [&str; 16] = [
@@ -280,6 +297,19 @@ fn run_known(args: &Args) -> Report {
         format!("{} reparse={:?}", u, Url::parse(u.as_str()).map(|v| v.to_string()))
     });
     rep.known.push(("F-C02-4".into(), r.starts_with("a://:80/ reparse=Err"), r));
+    let r = verif_harness::guarded(|| {
+        let ip = std::net::IpAddr::V4(std::net::Ipv4Addr::new(127, 0, 0, 1));
+        let mut u = Url::parse("a://x/").unwrap();
+        let in_class = known_f_c02_9(&u, &ip);
+        let _ = u.set_ip_host(ip);
+        let v = Url::parse(u.as_str()).unwrap();
+        format!("{} host={:?} reparse={} host={:?} in_class={} prop_c02={}", u, u.host(), v, v.host(), in_class, prop_c02(&u).is_some())
+    });
+    rep.known.push((
+        "F-C02-9".into(),
+        r.starts_with("a://127.0.0.1/ host=Some(Ipv4(127.0.0.1)) reparse=a://127.0.0.1/ host=Some(Domain(\"127.0.0.1\")) in_class=true prop_c02=true"),
+        r,
+    ));
     rep
 }
 
